@@ -1143,7 +1143,11 @@ def raised_in_library(e):
     while tb is not None:
         last = tb.tb_frame.f_code.co_filename
         tb = tb.tb_next
-    return last is not None and (os.sep + "dsim" + os.sep) not in last
+    if last is None:
+        return False
+    if (os.sep + "dsim" + os.sep + "standin" + os.sep) in last:
+        return True       # the simulated store refused a call made by the library
+    return (os.sep + "dsim" + os.sep) not in last
 
 
 def donor_key(a):
